@@ -1,5 +1,6 @@
 import FpVerif.Model.Json
 import FpVerif.Lemmas.RecordMask
+import FpVerif.Lemmas.JsonStruct
 /-!
 # C15 — JSON round trip for `fp.Option`, `fp.Unit` and `@fp.Json` structs.
 
@@ -12,6 +13,12 @@ fresh zero value gives `v`) and `NotNull c v` (the decoder's guard `len(b) > 0 &
 on `enc v`).  `NotNull` is deliberately the *guard itself*, i.e. "non-empty and first byte ≠ 'n'"
 (`notNull_iff`): with only `head? ≠ some 'n'` an (un-JSON-like) codec with an empty encoding would
 falsify the round trip, because `UnmarshalJSON` maps empty input to `None`.
+
+Section 7 discharges the whole-struct `Faithful` hypothesis of `struct_roundtrip` from FIELD-level
+hypotheses (`mutable_faithful_of_fields`, `struct_roundtrip_of_fields`,
+`struct_roundtrip_of_faithful_notNull`; the struct codec built from field codecs is
+`mutableCodec` of `Lemmas/JsonStruct.lean`); section 8 states what `mutableTag` (json key, omitempty)
+is for every field.
 
 Where the property does NOT hold this file says so with a theorem (`option_null_collapses`,
 `option_some_none_collapses`, `option_unit_collapses`, `struct_roundtrip_nonapplicable_zeroed`,
@@ -406,5 +413,317 @@ theorem omitempty_dirty_target_not_faithful :
 /-- a struct with a non-applicable field: that hypothesis of `struct_roundtrip` can fail too -/
 example : ¬ (∀ f ∈ [({ name := "_x", ty := .conc "int" } : Field)], f.applicable = true) := by
   simp [Field.applicable]
+
+/-! ## 7. Whole-struct `Faithful` from FIELD-level hypotheses (audit finding 22)
+
+`struct_roundtrip` assumes `Faithful mc (asMutable s t) (asMutable s x)` for an opaque whole-struct
+codec `mc`.  Here `mc` is `mutableCodec syn s js tc` (`Lemmas/JsonStruct.lean`): `encoding/json` on
+the Mutable twin BUILT from one codec per field (`tc`), the key / `omitempty` of every field (`js`)
+and the object syntax (`syn`).  Its `Faithful` follows from hypotheses about the single fields. -/
+
+/-- **Composition.**  If, for every applicable field, the field's own codec is `Faithful` from what
+    the target holds in that field (whenever the field is written), and the target already agrees
+    with `x` on every field `omitempty` leaves out, then `encoding/json` on the Mutable twin is
+    `Faithful` — the hypothesis of `struct_roundtrip`.  (Shape-level side conditions: distinct json
+    keys; the object syntax splits the object it rendered.) -/
+theorem mutable_faithful_of_fields (syn : ObjSyntax E) (s : StructSpec) (js : Field → JsonOpts)
+    (tc : TypeCodecs E) (x t : Rec) (hx : Rec.WF s x) (ht : Rec.WF s t)
+    (hsyn : syn.Splits (encPairs (mutableFieldCodecs s js tc) (asMutable s x)))
+    (hd : DistinctJsonKeys s js)
+    (h : ∀ i f, s.fields[i]? = some f → f.applicable = true →
+      (fieldEmitted js tc f (getF i x) = true → Faithful (tc.codec f) (getF i t) (getF i x)) ∧
+      (fieldEmitted js tc f (getF i x) = false → getF i t = getF i x)) :
+    Faithful (mutableCodec syn s js tc) (asMutable s t) (asMutable s x) :=
+  mutableCodec_faithful syn s js tc x t hx ht hsyn hd h
+
+/-- the JSON emitted for the struct is the object with one pair per applicable field that is not
+    omitted, in declaration order, key and value as `encoding/json` produces them for that field -/
+theorem struct_marshal_pairs (syn : ObjSyntax E) (s : StructSpec) (js : Field → JsonOpts)
+    (tc : TypeCodecs E) (x : Rec) :
+    structMarshal s (mutableCodec syn s js tc) x
+      = syn.render (encPairs (mutableFieldCodecs s js tc) (asMutable s x)) := rfl
+
+/-- round trip from field-level hypotheses, general form (non-applicable fields come back zeroed) -/
+theorem struct_roundtrip_mask_of_fields (syn : ObjSyntax E) (s : StructSpec) (js : Field → JsonOpts)
+    (tc : TypeCodecs E) (x t : Rec) (hx : Rec.WF s x) (ht : Rec.WF s t)
+    (hsyn : syn.Splits (encPairs (mutableFieldCodecs s js tc) (asMutable s x)))
+    (hd : DistinctJsonKeys s js)
+    (h : ∀ i f, s.fields[i]? = some f → f.applicable = true →
+      (fieldEmitted js tc f (getF i x) = true → Faithful (tc.codec f) (getF i t) (getF i x)) ∧
+      (fieldEmitted js tc f (getF i x) = false → getF i t = getF i x)) :
+    structUnmarshal s (mutableCodec syn s js tc) (structMarshal s (mutableCodec syn s js tc) x) (some t)
+      = ⟨some (mask s.fields x), none⟩ :=
+  struct_roundtrip_mask s _ x t (mutable_faithful_of_fields syn s js tc x t hx ht hsyn hd h)
+
+/-- **Round trip proper from field-level hypotheses**: `struct_roundtrip` with its whole-struct
+    `Faithful` hypothesis discharged by `mutable_faithful_of_fields`. -/
+theorem struct_roundtrip_of_fields (syn : ObjSyntax E) (s : StructSpec) (js : Field → JsonOpts)
+    (tc : TypeCodecs E) (x t : Rec) (hx : Rec.WF s x) (ht : Rec.WF s t)
+    (happ : ∀ f ∈ s.fields, f.applicable = true)
+    (hsyn : syn.Splits (encPairs (mutableFieldCodecs s js tc) (asMutable s x)))
+    (hd : DistinctJsonKeys s js)
+    (h : ∀ i f, s.fields[i]? = some f →
+      (fieldEmitted js tc f (getF i x) = true → Faithful (tc.codec f) (getF i t) (getF i x)) ∧
+      (fieldEmitted js tc f (getF i x) = false → getF i t = getF i x)) :
+    structUnmarshal s (mutableCodec syn s js tc) (structMarshal s (mutableCodec syn s js tc) x) (some t)
+      = ⟨some x, none⟩ :=
+  struct_roundtrip s _ x t hx happ
+    (mutable_faithful_of_fields syn s js tc x t hx ht hsyn hd (fun i f hi _ => h i f hi))
+
+/-- **… from `Faithful ∧ NotNull` of the field VALUES** (the property's wording).  The struct's
+    `fp.Option[T]` fields go through `Option[T].MarshalJSON / UnmarshalJSON` (`optionTypeCodecs`);
+    an Option field needs, when it holds `Some(w)`, the ELEMENT codec `Faithful` (from the fresh zero
+    value) and `NotNull` on `w` — and nothing about the target; any other field needs its codec
+    `Faithful` from the target's value (or, when `omitempty` drops it, the target to agree). -/
+theorem struct_roundtrip_of_faithful_notNull (syn : ObjSyntax (UErr E)) (s : StructSpec)
+    (js : Field → JsonOpts) (ec : Field → Codec E RV) (ez : Field → RV)
+    (plain : Field → Codec (UErr E) RV) (plainEmpty : Field → RV → Bool) (x t : Rec)
+    (hx : Rec.WF s x) (ht : Rec.WF s t)
+    (happ : ∀ f ∈ s.fields, f.applicable = true)
+    (hsyn : syn.Splits
+      (encPairs (mutableFieldCodecs s js (optionTypeCodecs ec ez plain plainEmpty)) (asMutable s x)))
+    (hd : DistinctJsonKeys s js)
+    (hopt : ∀ i f, s.fields[i]? = some f → f.ty.isOpt = true →
+      getF i x = .none ∨ ∃ w, getF i x = .some w ∧ Faithful (ec f) (ez f) w ∧ NotNull (ec f) w)
+    (hplain : ∀ i f, s.fields[i]? = some f → f.ty.isOpt = false →
+      if (js f).omitempty && plainEmpty f (getF i x) then getF i t = getF i x
+      else Faithful (plain f) (getF i t) (getF i x)) :
+    structUnmarshal s (mutableCodec syn s js (optionTypeCodecs ec ez plain plainEmpty))
+      (structMarshal s (mutableCodec syn s js (optionTypeCodecs ec ez plain plainEmpty)) x) (some t)
+      = ⟨some x, none⟩ := by
+  apply struct_roundtrip_of_fields syn s js _ x t hx ht happ hsyn hd
+  intro i f hi
+  cases ho : f.ty.isOpt with
+  | true =>
+    have hem : fieldEmitted js (optionTypeCodecs ec ez plain plainEmpty) f (getF i x) = true := by
+      simp [fieldEmitted, optionTypeCodecs, ho]
+    refine ⟨fun _ => ?_, fun h' => by simp [hem] at h'⟩
+    simp only [optionTypeCodecs, ho, if_true]
+    rcases hopt i f hi ho with h0 | ⟨w, hw, hf, hn⟩
+    · rw [h0]; exact optFieldCodec_faithful_none _ _ _
+    · rw [hw]; exact optFieldCodec_faithful_some _ _ _ _ hf hn
+  | false =>
+    have hp := hplain i f hi ho
+    have hem : fieldEmitted js (optionTypeCodecs ec ez plain plainEmpty) f (getF i x)
+        = !((js f).omitempty && plainEmpty f (getF i x)) := by
+      simp [fieldEmitted, optionTypeCodecs, ho]
+    cases hc : ((js f).omitempty && plainEmpty f (getF i x)) with
+    | true =>
+      simp only [hc, if_true] at hp
+      refine ⟨fun h' => by simp [hem, hc] at h', fun _ => hp⟩
+    | false =>
+      simp only [hc] at hp
+      refine ⟨fun _ => by simpa [optionTypeCodecs, ho] using hp, fun h' => by simp [hem, hc] at h'⟩
+
+/-- … and the `NotNull` hypothesis cannot be dropped: an Option FIELD holding `Some(w)` with a null
+    element encoding decodes to `None`, for every element codec -/
+theorem struct_option_field_null_collapses (c : Codec E RV) (zero start w : RV) (hn : ¬ NotNull c w) :
+    (optFieldCodec c zero).dec ((optFieldCodec c zero).enc (.some w)) start = .ok .none :=
+  optFieldCodec_null_collapses c zero start w hn
+
+/-! ## 8. The json tags of the Mutable twin: `mutableTag` (`genMutable`), audit finding 22
+
+"json tags, omitempty on nilable and Option fields": equations for `mutableTag` over ALL structs and
+fields.  `generatesJsonTag s f` is the generator's three-fold test (field not `_`-prefixed, struct
+is `@fp.Json`, the user's tag does not contain `json`). -/
+
+theorem generatesJsonTag_iff (s : StructSpec) (f : Field) :
+    generatesJsonTag s f = true ↔
+      f.name.startsWith "_" = false ∧ s.ann.json = true ∧ (f.tag.splitOn "json").length = 1 := by
+  simp [generatesJsonTag, and_assoc]
+
+/-- the tag is generated: the user's tag (if any, then a blank) followed by `json:"<field name>"`
+    with `,omitempty` exactly when the field type is nilable or an `fp.Option` -/
+theorem mutableTag_generated (s : StructSpec) (f : Field) (h : generatesJsonTag s f = true) :
+    mutableTag s f = tagPrefix f ++ jsonTagText (generatedJsonOpts f) := by
+  simp only [generatesJsonTag] at h
+  cases hb : (f.nilable || f.ty.isOpt) <;>
+    simp [mutableTag, h, tagPrefix, jsonTagText, generatedJsonOpts, hb, String.append_assoc]
+
+/-- otherwise (a `_` field, no `@fp.Json`, or a user tag that mentions `json`) the user's tag is
+    copied unchanged: the key is then whatever the user's json tag says -/
+theorem mutableTag_kept (s : StructSpec) (f : Field) (h : generatesJsonTag s f = false) :
+    mutableTag s f = f.tag := by
+  simp only [generatesJsonTag] at h
+  simp [mutableTag, h]
+
+/-- both cases in one equation -/
+theorem mutableTag_eq (s : StructSpec) (f : Field) :
+    mutableTag s f =
+      if generatesJsonTag s f then tagPrefix f ++ jsonTagText (generatedJsonOpts f) else f.tag := by
+  cases h : generatesJsonTag s f
+  · simpa using mutableTag_kept s f h
+  · simpa using mutableTag_generated s f h
+
+/-- the two texts of a generated tag, spelled out -/
+theorem jsonTagText_omitempty (k : String) :
+    jsonTagText ⟨k, true⟩ = "json:\"" ++ k ++ ",omitempty\"" := by
+  simp [jsonTagText, String.append_assoc]
+
+theorem jsonTagText_plain (k : String) : jsonTagText ⟨k, false⟩ = "json:\"" ++ k ++ "\"" := by
+  simp [jsonTagText]
+
+/-- the generated key is the field's own (original, unexported) name -/
+theorem generated_key (f : Field) : (generatedJsonOpts f).key = f.name := rfl
+
+/-- `omitempty` EXACTLY on nilable and `fp.Option` fields (case split over the field's type) -/
+theorem generated_omitempty_iff (f : Field) :
+    (generatedJsonOpts f).omitempty = true ↔ (f.nilable = true ∨ ∃ e, f.ty = .opt e) := by
+  simp only [generatedJsonOpts, Bool.or_eq_true]
+  cases f.ty <;> simp [Ty.isOpt]
+
+/-- … read off the generated STRING: it is the `,omitempty` text iff the field is nilable or an Option -/
+theorem mutableTag_omitempty_iff (s : StructSpec) (f : Field) (h : generatesJsonTag s f = true) :
+    mutableTag s f = tagPrefix f ++ jsonTagText ⟨f.name, true⟩ ↔ (f.nilable = true ∨ ∃ e, f.ty = .opt e) := by
+  rw [mutableTag_generated s f h, ← generated_omitempty_iff]
+  cases ho : (generatedJsonOpts f).omitempty with
+  | true =>
+    have : generatedJsonOpts f = ⟨f.name, true⟩ := by rw [← ho]; rfl
+    simp [this]
+  | false =>
+    have : generatedJsonOpts f = ⟨f.name, false⟩ := by rw [← ho]; rfl
+    simp only [this, Bool.false_eq_true, iff_false]
+    exact fun h' => jsonTagText_omitempty_ne _ _ h'.symm
+
+/-- … and the plain `json:"name"` text iff it is neither -/
+theorem mutableTag_plain_iff (s : StructSpec) (f : Field) (h : generatesJsonTag s f = true) :
+    mutableTag s f = tagPrefix f ++ jsonTagText ⟨f.name, false⟩ ↔ (f.nilable = false ∧ ∀ e, f.ty ≠ .opt e) := by
+  have hiff := generated_omitempty_iff f
+  rw [mutableTag_generated s f h]
+  cases ho : (generatedJsonOpts f).omitempty with
+  | true =>
+    have : generatedJsonOpts f = ⟨f.name, true⟩ := by rw [← ho]; rfl
+    rw [this]
+    constructor
+    · intro h'; exact absurd h' (jsonTagText_omitempty_ne _ _)
+    · intro ⟨hn, he⟩
+      rcases hiff.1 ho with h1 | ⟨e, h2⟩
+      · simp [hn] at h1
+      · exact absurd h2 (he e)
+  | false =>
+    have : generatedJsonOpts f = ⟨f.name, false⟩ := by rw [← ho]; rfl
+    simp only [this, true_iff]
+    have hno : ¬ (f.nilable = true ∨ ∃ e, f.ty = .opt e) := by
+      intro hc; have := hiff.2 hc; simp [ho] at this
+    constructor
+    · cases hn : f.nilable
+      · rfl
+      · exact absurd (Or.inl hn) hno
+    · intro e he; exact hno (Or.inr ⟨e, he⟩)
+
+/-- a field WITHOUT a user tag in an `@fp.Json` struct always gets the generated tag -/
+theorem generatesJsonTag_of_no_tag (s : StructSpec) (f : Field) (hj : s.ann.json = true)
+    (hn : f.name.startsWith "_" = false) (ht : f.tag = "") : generatesJsonTag s f = true := by
+  simp [generatesJsonTag, hj, hn, ht, splitOn_empty_json]
+
+/-- so there the whole tag is `json:"<name>"` or `json:"<name>,omitempty"` -/
+theorem mutableTag_of_no_tag (s : StructSpec) (f : Field) (hj : s.ann.json = true)
+    (hn : f.name.startsWith "_" = false) (ht : f.tag = "") :
+    mutableTag s f = jsonTagText ⟨f.name, f.nilable || f.ty.isOpt⟩ := by
+  rw [mutableTag_generated s f (generatesJsonTag_of_no_tag s f hj hn ht)]
+  simp [tagPrefix, ht, generatedJsonOpts]
+
+/-- not `@fp.Json`, or a `_` field: nothing is added -/
+theorem mutableTag_no_json (s : StructSpec) (f : Field) (h : s.ann.json = false ∨ f.name.startsWith "_" = true) :
+    mutableTag s f = f.tag := by
+  apply mutableTag_kept
+  rcases h with h | h <;> simp [generatesJsonTag, h]
+
+/-- examples: an Option field, a nilable field, a plain field, a `_` field -/
+example : mutableTag toySpec { name := "a", ty := .opt (.conc "int"), zero := .none } = "json:\"a,omitempty\"" := by
+  rw [mutableTag_of_no_tag _ _ rfl (by simp) rfl]; decide
+
+example : mutableTag toySpec { name := "p", ty := .conc "*int", nilable := true } = "json:\"p,omitempty\"" := by
+  rw [mutableTag_of_no_tag _ _ rfl (by simp) rfl]; decide
+
+example : mutableTag toySpec { name := "n", ty := .conc "int" } = "json:\"n\"" := by
+  rw [mutableTag_of_no_tag _ _ rfl (by simp) rfl]; decide
+
+example : mutableTag toySpec { name := "_x", ty := .conc "int", tag := "k:\"v\"" } = "k:\"v\"" :=
+  mutableTag_no_json _ _ (Or.inr (by simp))
+
+/-! ### Non-vacuity of section 7: concrete field codecs, a concrete object syntax -/
+
+/-- toy `encoding/json` for `uint` restricted to `0` / `1` (bytes `0`, `1`), target ignored -/
+def bitCodec : Codec Unit RV where
+  enc v := if v = .atom "1" then [49] else [48]
+  dec b _ := if b = [49] then .ok (.atom "1") else if b = [48] then .ok (.atom "0") else .error ()
+
+/-- the same as the codec of a plain struct field (errors of `json.Unmarshal` wrapped) -/
+def bitFieldCodec : Codec (UErr Unit) RV where
+  enc := bitCodec.enc
+  dec b cur := match bitCodec.dec b cur with | .ok v => .ok v | .error e => .error (.inner e)
+
+/-- toy object syntax: per pair the first byte of the key, the length of the value, the value -/
+def toyParse : Nat → Bytes → Except (UErr Unit) (List (String × Bytes))
+  | _, [] => .ok []
+  | 0, _ => .error (.inner ())
+  | fuel + 1, kb :: bl :: rest =>
+    if rest.length < bl.toNat then .error (.inner ()) else
+      match toyParse fuel (rest.drop bl.toNat) with
+      | .ok kvs => .ok ((String.singleton (Char.ofNat kb.toNat), rest.take bl.toNat) :: kvs)
+      | .error e => .error e
+  | _, _ => .error (.inner ())
+
+def toySyn : ObjSyntax (UErr Unit) where
+  render kvs := kvs.flatMap fun kv =>
+    [UInt8.ofNat (kv.1.toList.headD 'x').toNat, UInt8.ofNat kv.2.length] ++ kv.2
+  parse b := toyParse b.length b
+
+/-- `type P struct { a fp.Option[uint]; n uint }`, `@fp.Value @fp.Json` -/
+def pairSpec : StructSpec :=
+  { name := "P",
+    fields := [{ name := "a", ty := .opt (.conc "uint"), zero := .none }, { name := "n", ty := .conc "uint" }],
+    ann := { value := true, json := true } }
+
+def pairCodecs : TypeCodecs (UErr Unit) :=
+  optionTypeCodecs (fun _ => bitCodec) (fun _ => .atom "0") (fun _ => bitFieldCodec) (fun _ v => v == .atom "0")
+
+theorem bitCodec_ok (v start : RV) (hv : v = .atom "0" ∨ v = .atom "1") :
+    Faithful bitCodec start v ∧ NotNull bitCodec v := by
+  rcases hv with rfl | rfl <;> simp [Faithful, NotNull, bitCodec]
+
+/-- every hypothesis of `struct_roundtrip_of_faithful_notNull` holds for `P{a: Some(1), n: 1}` decoded
+    into ANY two-field target: the whole-struct round trip follows from the field codecs alone, with
+    the keys / omitempty gombok generates (`generatedJsonOpts`) -/
+example (t0 t1 : RV) :
+    structUnmarshal pairSpec (mutableCodec toySyn pairSpec generatedJsonOpts pairCodecs)
+      (structMarshal pairSpec (mutableCodec toySyn pairSpec generatedJsonOpts pairCodecs)
+        [.some (.atom "1"), .atom "1"]) (some [t0, t1])
+      = ⟨some [.some (.atom "1"), .atom "1"], none⟩ := by
+  have happ : ∀ f ∈ pairSpec.fields, f.applicable = true := by simp [pairSpec, Field.applicable]
+  apply struct_roundtrip_of_faithful_notNull toySyn pairSpec generatedJsonOpts _ _ _ _
+    [RV.some (.atom "1"), .atom "1"] [t0, t1] rfl rfl happ
+  · -- the object syntax splits the two pairs it rendered
+    have hm : asMutable pairSpec [RV.some (.atom "1"), .atom "1"] = [RV.some (.atom "1"), .atom "1"] :=
+      mask_eq_self _ _ rfl happ
+    rw [hm]
+    have hp : encPairs (mutableFieldCodecs pairSpec generatedJsonOpts
+        (optionTypeCodecs (fun _ => bitCodec) (fun _ => RV.atom "0") (fun _ => bitFieldCodec)
+          fun _ v => v == RV.atom "0")) [RV.some (.atom "1"), .atom "1"]
+        = [("a", [49]), ("n", [49])] := by
+      simp [encPairs, mutableFieldCodecs, pairSpec, FieldCodec.emits, Field.applicable,
+        generatedJsonOpts, optionTypeCodecs, optFieldCodec, optionCodec, Opt.marshalJSON, RV.toOpt,
+        bitCodec, bitFieldCodec, Ty.isOpt]
+    rw [hp]
+    simp [ObjSyntax.Splits, toySyn, toyParse]
+  · -- keys `a`, `n` are distinct
+    simp [DistinctJsonKeys, pairSpec, generatedJsonOpts]
+  · -- the Option field: element codec Faithful ∧ NotNull on `1`
+    intro i f hi ho
+    match i, hi with
+    | 0, hi =>
+      refine Or.inr ⟨.atom "1", by simp [getF], ?_⟩
+      exact bitCodec_ok _ _ (Or.inr rfl)
+    | 1, hi => simp [pairSpec] at hi; subst hi; simp [Ty.isOpt] at ho
+    | n + 2, hi => simp [pairSpec] at hi
+  · -- the plain field: not omitted (`1` is not empty), its codec Faithful from any target value
+    intro i f hi ho
+    match i, hi with
+    | 0, hi => simp [pairSpec] at hi; subst hi; simp [Ty.isOpt] at ho
+    | 1, hi =>
+      simp [pairSpec] at hi; subst hi
+      simp [getF, generatedJsonOpts, Ty.isOpt, Faithful, bitFieldCodec, bitCodec]
+    | n + 2, hi => simp [pairSpec] at hi
 
 end FpVerif.Spec.C15
